@@ -5,6 +5,7 @@ git -C /repo worktree remove --force $wt 2>/dev/null; git -C /repo worktree prun
 git -C /repo worktree add --detach $wt HEAD >/dev/null 2>&1 || exit 2
 for d in /verif/seeded/*/; do
   id=$(basename $d); case $id in *_superseded) continue;; esac
+  if [ -n "${2:-}" ] && ! echo " $2 " | grep -q " $id "; then continue; fi
   prop=$(python3 -c "import json;print(json.load(open('$d/meta.json'))['property'])")
   git -C $wt checkout -q -- . ; git -C $wt clean -fdq
   if ! git -C $wt apply $d/patch.diff 2>/dev/null; then echo "$id $prop: patch does not apply"; continue; fi
